@@ -11,7 +11,11 @@ def run(ctx):
                 "ranges not significant), the same numbers, and the spec *encoder* applied to the decoded syntax tree with the "
                 "greedy run grouping reproduces the bytes bit for bit (so the real writer is inside the image of the spec "
                 "encoder, padding bits zero). The 8 shipped asset files (written by 0.4/0.6/0.9/0.10) are decoded by the spec "
-                "decoder and compared with their .bin values: they pin the frozen constants independently. non-trivial as in C01")
+                "decoder and compared with their .bin values: they pin the frozen constants independently. Layer W: the literal "
+                "Lean model of trained_compress_chunk_nums / CompressionTable (proved equal to the spec encoder for every table "
+                "and input, C02w) is run against the real function through the guarded hook on random tables (any complete code "
+                "tree, disjoint ranges, divisors, run-length prefix, dyadic / full-width ranges, 16..128-bit types) and inputs "
+                "(covered, uncovered, off-lattice): bits or error kind compared string for string. non-trivial as in C01")
     if not ctx.model_ok:
         return
     cs = c01.cases(ctx)
@@ -65,3 +69,6 @@ def run(ctx):
             ctx.disagree("asset", name, a[:300], "expected %d values" % len(vals), "frozen-format decoder does not reproduce the shipped asset")
     if len(al) != 8:
         ctx.tie_break("assets", "expected 8 asset files, found %d" % len(al))
+    # layer W: the literal model of the body writer (proved = spec encoder, C02w) against trained_compress_chunk_nums
+    from .. import litstream as L
+    L.run_bodywrite(ctx, 250 if ctx.quick else 4000)
